@@ -139,4 +139,6 @@ def confirm(script, args, predicate, pipe=False, variant='rel'):
 
 def features(fam, opts, assertions):
     big = any(len(tok) >= 10 and tok.isdigit() for a in assertions for tok in a.replace('(', ' ').replace(')', ' ').split())
-    return {'logic': fam.logic, 'family': fam.name, 'options': sorted(opts), 'input_class': 'big_constant' if big else 'small'}
+    toks = set(tok for a in assertions for tok in a.replace('(', ' ').replace(')', ' ').split())
+    return {'logic': fam.logic, 'family': fam.name, 'options': sorted(opts), 'input_class': 'big_constant' if big else 'small',
+            'bool_var': bool(toks & {'p', 'q', 'r', 's'})}
